@@ -127,6 +127,7 @@ void prop_gen(Ctx &c) {
 			cs.mode = mode; cs.cap = 400;
 			return cs; });
 	rc::check("C03", [&]() {
+		if (c.shrink_exhausted()) return;
 		Case cs = *genCase;
 		std::string txt = ctext(cs);
 		Verdict v = judge(cs);
